@@ -1,9 +1,29 @@
-(* Properties/C05.v — argument-to-parameter binding agrees with CPython. *)
+(* Properties/C05.v — argument-to-parameter binding agrees with CPython.
+   Only statements, `exact`, and Print Assumptions.
+
+   Model      : PV.Binder.Bind   (preprocess_args + Signature.bind_arguments, repaired code)
+   Spec       : PV.Binder.PyBind (CPython's argument-driven binding algorithm)
+   Validity   : PV.Binder.Sig.valid_sig over PV.Gen.Kinds (tables regenerated from signature.py) *)
 From Coq Require Import List Bool NArith PeanoNat.
 Import ListNotations.
-Require Import PV.Binder.Kind PV.Binder.Sig PV.Binder.Bind PV.Binder.PyBind.
-Require Import PV.Proofs.BinderStar.
+Require Import PV.Binder.Kind PV.Gen.Kinds PV.Binder.Sig PV.Binder.Bind PV.Binder.PyBind.
+Require Import PV.Proofs.BinderConcrete PV.Proofs.BinderValid PV.Proofs.BinderStar.
 Open Scope N_scope.
+
+(* Concrete call shapes: for EVERY valid signature (any number of parameters of
+   any kind / default pattern) and EVERY call with n definite positionals and
+   distinct definite keywords, the binder model accepts iff CPython binds. *)
+Theorem C05_bind_concrete_iff_pybind : forall s a,
+  valid_sig s = true -> concrete a -> names_nodup (map fst (keywords a)) = true ->
+  accepts s a = py_bind s (length (positionals a)) (map fst (keywords a)).
+Proof. exact bind_concrete_iff_pybind. Qed.
+Print Assumptions C05_bind_concrete_iff_pybind.
+
+(* What Signature.validate guarantees (over the regenerated tables) *)
+Theorem C05_valid_sig_shape : forall s, valid_sig s = true ->
+  names_nodup (map pname s) = true /\ pos_before_vp s = true.
+Proof. exact valid_sig_shape. Qed.
+Print Assumptions C05_valid_sig_shape.
 
 Example C05_reject_complete_refuted_witness :
   let s := [mkParam 1 POK false; mkParam 2 POK false] in
